@@ -504,7 +504,9 @@ def run(ctx):
     ctx.assumptions += ["every descriptor of the parent is close-on-exec at fork time (C15)",
                         "stdio sources are open descriptors; fcntl/open/dup2 in the child do not fail with EMFILE",
                         "no other code waits on libuv's children (else process.c:139-145 keeps the handle forever)"]
-    ctx.require_lean(["UvModel.Props.C12"])
+    ctx.trusted += ["tools/gen_lean.py (clang AST -> Lean for the loop-free kernels wait_decode (WIFEXITED/WEXITSTATUS/WIFSIGNALED/WTERMSIG in uv__wait_children)) and UvModel/CSem.lean"]
+    ctx.gen_lean(need=["C12"])   # Tie A: wait-status decode regenerated from /repo, GenEq/C12 re-proves it = ProcFd.decode
+    ctx.require_lean(["UvModel.GenEq.C12", "UvModel.Props.C12"])
     uexe = ctx.harness("c12_childinit", ["harness/c12_childinit.c"], link_lib=True)
     sexe = ctx.harness("c12_spawn", ["harness/c12_spawn.c"], link_lib=True)
     if ctx.replay:
